@@ -217,3 +217,50 @@ impl IterativeQuery {
         done
     }
 }
+
+#[cfg(mainline_verif)]
+impl IterativeQuery {
+    /// Verification hook: projection of the private state.
+    pub fn verif_snapshot(&self, socket: &KrpcSocket) -> crate::verif::QuerySnap {
+        let mut votes: Vec<(String, u32)> = self
+            .public_address_votes
+            .iter()
+            .map(|(a, c)| (a.to_string(), *c))
+            .collect();
+        votes.sort();
+        let mut visited: Vec<String> = self.visited.iter().map(|a| a.to_string()).collect();
+        visited.sort();
+        crate::verif::QuerySnap {
+            target: self.target().to_string(),
+            kind: match self.request.request_type {
+                RequestTypeSpecific::FindNode(_) => "find_node",
+                RequestTypeSpecific::GetPeers(_) => "get_peers",
+                RequestTypeSpecific::GetSignedPeers(_) => "get_signed_peers",
+                RequestTypeSpecific::GetValue(_) => "get_value",
+                _ => "other",
+            }
+            .to_string(),
+            candidates: self
+                .closest
+                .nodes()
+                .iter()
+                .map(|n| (n.id().to_string(), n.address().to_string()))
+                .collect(),
+            visited,
+            tids: self.inflight_requests.clone(),
+            live: self
+                .inflight_requests
+                .iter()
+                .filter(|t| socket.inflight(t))
+                .count(),
+            responders: self
+                .responders
+                .nodes()
+                .iter()
+                .map(|n| (n.id().to_string(), n.address().to_string()))
+                .collect(),
+            responses: self.responses.len(),
+            votes,
+        }
+    }
+}
